@@ -209,7 +209,18 @@ class Proposition(Component):
             new_knowledge = [new_knowledge.copy() for new_knowledge in self.new_knowledge]
             cardinality = self.cardinality.copy() if self.cardinality else None
             requisite = self.requisite.copy()
-            relations = [relation.copy() for relation in self.relations]
+            # a relation keeps pointing at the copy of the very entity it related (two clauses may use the same verb)
+            originals = [entity for component in self.new_knowledge + [self.requisite] for entity in component.get_entities()]
+            copies = [entity for component in new_knowledge + [requisite] for entity in component.get_entities()]
+
+            def copy_of(component):
+                if len(originals) == len(copies):
+                    for original, copied in zip(originals, copies):
+                        if original is component:
+                            return copied
+                return component.copy()
+            relations = [RelationComponent(copy_of(relation.relation_component_1), copy_of(relation.relation_component_2))
+                         for relation in self.relations]
             defined_attributes = [attribute.copy() for attribute in self.defined_attributes]
             return Proposition(new_knowledge, cardinality, requisite, relations, defined_attributes)
 
